@@ -68,6 +68,13 @@ func Walk(ctx context.Context, fileSystem fs.FS, prefix, delimiter, marker strin
 		}
 	}
 
+	// keys are slash separated paths without empty, "." or ".." elements:
+	// a prefix whose directory part is not such a path matches no key
+	// (walking it would fail with an invalid path error)
+	if !fs.ValidPath(root) {
+		return WalkResults{}, nil
+	}
+
 	// the walk below starts at root and only ever tests the directories it
 	// descends into against skipdirs: a prefix that points into a skipped
 	// directory must not make its content visible
